@@ -56,6 +56,7 @@ def load():
         for n in tree.body:
             if isinstance(n, ast.ClassDef) and n.name == cname:
                 infos[cname] = ClassInfo(cname, n, aliases)
+                infos[cname].modfuncs = {f.name: f for f in tree.body if isinstance(f, ast.FunctionDef)}
     return infos
 
 
@@ -142,6 +143,39 @@ class Flow:
                 args = [self.expr(a, depth) for a in e.args] + [self.expr(k.value, depth) for k in e.keywords]
                 inner = Flow(tr, self.cls, owner_m).block(fn.body, depth + 1)
                 return self.seq(args + [inner])
+            # helper(self, ...): a function of the owner's module handed the instance; its reads through that
+            # parameter are the instance's reads
+            mf = getattr(tr.infos[self.owner], "modfuncs", {})
+            if isinstance(f, ast.Name) and f.id in mf and depth < 4:
+                fn = mf[f.id]
+                pos = [a.arg for a in fn.args.posonlyargs + fn.args.args]
+                bound = [pos[j] for j, a in enumerate(e.args) if isinstance(a, ast.Name) and a.id == "self" and j < len(pos)]
+                bound += [k.arg for k in e.keywords if isinstance(k.value, ast.Name) and k.value.id == "self" and k.arg]
+                if len(bound) == 1 and not any(isinstance(n, ast.Name) and n.id == bound[0] and isinstance(n.ctx, ast.Store) for n in ast.walk(fn)):
+                    consts = {pos[j]: a for j, a in enumerate(e.args) if isinstance(a, ast.Constant) and j < len(pos)}
+                    consts.update({k.arg: k.value for k in e.keywords if isinstance(k.value, ast.Constant) and k.arg})
+                    stored = {n.id for n in ast.walk(fn) if isinstance(n, ast.Name) and isinstance(n.ctx, ast.Store)}
+                    consts = {k_: v_ for k_, v_ in consts.items() if k_ not in stored}
+
+                    class _R(ast.NodeTransformer):
+                        def visit_Name(s_, n):
+                            if n.id == bound[0]:
+                                return ast.copy_location(ast.Name(id="self", ctx=n.ctx), n)
+                            if n.id in consts and isinstance(n.ctx, ast.Load):
+                                return ast.copy_location(ast.Constant(value=consts[n.id].value), n)
+                            return n
+
+                        def visit_Call(s_, c):
+                            c = s_.generic_visit(c)
+                            # getattr(self, "name") is the attribute read self.name
+                            if isinstance(c.func, ast.Name) and c.func.id == "getattr" and len(c.args) == 2 and isinstance(c.args[1], ast.Constant) \
+                                    and isinstance(c.args[1].value, str) and isinstance(c.args[0], ast.Name) and c.args[0].id == "self":
+                                return ast.copy_location(ast.Attribute(value=c.args[0], attr=c.args[1].value, ctx=ast.Load()), c)
+                            return c
+                    import copy as _copy
+                    body = [_R().visit(_copy.deepcopy(st)) for st in fn.body]
+                    args = [self.expr(a, depth) for a in e.args] + [self.expr(k.value, depth) for k in e.keywords]
+                    return self.seq(args + [Flow(tr, self.cls, self.owner).block(body, depth + 1)])
             parts = [self.expr(f, depth)] + [self.expr(a, depth) for a in e.args] + [self.expr(k.value, depth) for k in e.keywords]
             return self.seq(parts)
         if isinstance(e, ast.BoolOp):
@@ -449,6 +483,20 @@ def model_runs(tr):
                             if h is not None:
                                 acc += calls(h, seen | {f.attr})
                                 break
+                # a function of the module handed the instance: its uses through that parameter are the instance's
+                if isinstance(nd, ast.Call) and isinstance(nd.func, ast.Name) and nd.func.id in getattr(info, "modfuncs", {}) \
+                        and ("fn:" + nd.func.id) not in seen:
+                    g = info.modfuncs[nd.func.id]
+                    pos = [a.arg for a in g.args.posonlyargs + g.args.args]
+                    bound = [pos[j] for j, a in enumerate(nd.args) if isinstance(a, ast.Name) and a.id == "self" and j < len(pos)]
+                    bound += [k.arg for k in nd.keywords if isinstance(k.value, ast.Name) and k.value.id == "self" and k.arg]
+                    if len(bound) == 1:
+                        import copy as _copy
+
+                        class _R(ast.NodeTransformer):
+                            def visit_Name(s_, n):
+                                return ast.copy_location(ast.Name(id="self", ctx=n.ctx), n) if n.id == bound[0] else n
+                        acc += calls(_R().visit(_copy.deepcopy(g)), seen | {"fn:" + nd.func.id})
             return acc
         for n, fn in sorted(info.quants.items()):
             for c in sorted(set(calls(fn, set()))):
